@@ -11,7 +11,7 @@
 (* OptionStore_MC model-checks over exactly this set and exports it; the   *)
 (* harness replays the exported cases through the real code.               *)
 (***************************************************************************)
-EXTENDS OptionPrecedence
+EXTENDS OptionPrecedence, SequencesExt
 
 StrPool   == <<"v0", "v1", "v2", "v3", "v4", "v5", "v6", "v7", "v8", "v9">>
 ComboPool == <<"c0", "c1", "c2", "c3", "c4", "c5", "c6", "c7", "c8", "c9">>
@@ -87,11 +87,36 @@ PrecCase(kind, cls, late, S, var, cross, defgiven) ==
 CrossOf(cls) == IF cls = "global" THEN BOOLEAN ELSE {FALSE}
 DgOf(kind, cls) == IF cls = "top" /\ kind # "integer" THEN BOOLEAN ELSE {TRUE}
 
-PrecCases ==
-    UNION { UNION { { PrecCase(kind, cls, late, S, var, cross, dg) :
-                        S \in SUBSET LevelsOf(cls), var \in 0..(NVar(kind) - 1), late \in Lates(cls),
-                        cross \in CrossOf(cls), dg \in DgOf(kind, cls) }
-                    : cls \in Classes } : kind \in PrecKinds }
+\* (built as a filtered product and mapped to a sequence: TLC evaluates UNION of big record sets quadratically)
+PrecParams(kinds) ==
+    { p \in (PrecKinds \cap kinds) \X Classes \X {"no", "top", "sub"} \X (SUBSET (1..8)) \X (0..3) \X BOOLEAN \X BOOLEAN :
+        /\ p[4] \subseteq LevelsOf(p[2]) /\ p[5] < NVar(p[1]) /\ p[3] \in Lates(p[2])
+        /\ p[6] \in CrossOf(p[2]) /\ p[7] \in DgOf(p[1], p[2]) }
+PrecSeq(kinds) == LET ps == SetToSeq(PrecParams(kinds)) IN
+           [i \in 1..Len(ps) |-> PrecCase(ps[i][1], ps[i][2], ps[i][3], ps[i][4], ps[i][5], ps[i][6], ps[i][7])]
+
+\* ---- real builtin options that can be given per subproject (Builtin-options.md, "Per subproject") ------------
+BuiltinNames == {"default_library", "warning_level", "werror"}
+BuiltinDecl(name) ==
+    CASE name = "default_library" -> Decl("combo", <<"shared", "static", "both">>, NoBound, NoBound)
+      [] name = "warning_level"   -> Decl("combo", <<"0", "1", "2", "3", "everything">>, NoBound, NoBound)
+      [] name = "werror"          -> Decl("boolean", <<>>, NoBound, NoBound)
+BuiltinDefault(name) == CASE name = "default_library" -> RStr("shared") [] name = "warning_level" -> RStr("1")
+                          [] name = "werror" -> RBool(0)
+BuiltinNVar(name) == IF name = "werror" THEN 4 ELSE 2
+BuiltinRaw(name, l, var, typed) ==
+    LET d == BuiltinDecl(name) IN
+    IF d.kind = "boolean" THEN PoolRaw("boolean", l, var, typed)
+    ELSE RStr(d.choices[Digit(l, Len(d.choices), var) + 1])
+BuiltinCase(name, S, var, cross) ==
+    LET ty == Cardinality(S) % 2 = 1 IN
+    Case("builtin/" \o name \o "/v" \o ToString(var) \o (IF cross THEN "x" ELSE "n") \o "/" \o ToString(S), "builtin", cross,
+         <<Opt(name, "g", BuiltinDecl(name), BuiltinDefault(name), TRUE, FALSE, "no", TRUE)>>,
+         [l \in 1..8 |-> IF l \in S THEN <<Asg(name, "h", BuiltinRaw(name, l, var, Typed(l, ty)))>> ELSE <<>>],
+         <<Q(name, "t", "h"), Q(name, "s", "h")>>)
+BuiltinParams(u) == { p \in BuiltinNames \X (SUBSET (1..8)) \X (0..3) \X BOOLEAN : p[3] < BuiltinNVar(p[1]) }
+BuiltinSeq(u) == LET ps == SetToSeq(BuiltinParams(0)) IN
+                 [i \in 1..Len(ps) |-> BuiltinCase(ps[i][1], ps[i][2], ps[i][3], ps[i][4])]
 
 \* ---- buildtype -> debug / optimization ------------------------------------------------
 BuildtypeList == <<"plain", "debug", "debugoptimized", "release", "minsize", "custom">>
@@ -122,7 +147,7 @@ BtCase(tag, pats, var) ==
     Case("bt/" \o tag \o "/v" \o ToString(var) \o "/" \o ToString(pats), "bt", FALSE, BtOpts,
          [l \in 1..8 |-> IF l \in DOMAIN pats THEN BtItems(pats[l], l, var) ELSE <<>>], BtQueries)
 
-BtCases == { BtCase("top", pats, var) : pats \in [{1, 3, 4} -> Patterns], var \in {1, 2} }
+BtCases(u) == { BtCase("top", pats, var) : pats \in [{1, 3, 4} -> Patterns], var \in {1, 2} }
            \cup { BtCase("sub", pats, var) : pats \in [{2, 6, 8} -> Patterns], var \in {1, 2} }
            \cup { BtCase("mix", pats, var) : pats \in [{1, 2, 4, 6} -> {"none", "bt", "ex"}], var \in {1, 2} }
 
@@ -139,7 +164,7 @@ PrefixCase(S, rot, se, le) ==
                          \o (IF l = se THEN <<Asg("sysconfdir", "h", RStr("myetc"))>> ELSE <<>>)
                          \o (IF l = le THEN <<Asg("localstatedir", "h", RStr("myvar")), Asg("sharedstatedir", "h", RStr("mycom"))>> ELSE <<>>)],
          << Q("prefix", "t", "h"), Q("sysconfdir", "t", "h"), Q("localstatedir", "t", "h"), Q("sharedstatedir", "t", "h") >>)
-PrefixCases == { PrefixCase(S, rot, se, le) : S \in SUBSET {1, 3, 4}, rot \in 0..2, se \in {0, 1, 3, 4}, le \in {0, 4} }
+PrefixCases(u) == { PrefixCase(S, rot, se, le) : S \in SUBSET {1, 3, 4}, rot \in 0..2, se \in {0, 1, 3, 4}, le \in {0, 4} }
 
 \* ---- per-machine options ----------------------------------------------------------------------
 PcpOpts == << Opt("pkg_config_path", "g", Decl("array", <<>>, NoBound, NoBound), RList(<<>>), TRUE, FALSE, "no", TRUE) >>
@@ -148,7 +173,7 @@ MachineCase(cross, H, B) ==
          [l \in 1..8 |-> (IF l \in H THEN <<Asg("pkg_config_path", "h", RList(<<"/h" \o ToString(l)>>))>> ELSE <<>>)
                          \o (IF l \in B THEN <<Asg("pkg_config_path", "b", RList(<<"/b" \o ToString(l)>>))>> ELSE <<>>)],
          << Q("pkg_config_path", "t", "h"), Q("pkg_config_path", "t", "b") >>)
-MachineCases == { MachineCase(FALSE, H, {}) : H \in SUBSET {1, 3, 4} }
+MachineCases(u) == { MachineCase(FALSE, H, {}) : H \in SUBSET {1, 3, 4} }
                 \cup { MachineCase(TRUE, H, B) : H \in SUBSET {1, 3, 4}, B \in SUBSET {1, 3, 4} }
 
 \* ---- module-prefixed and other builtin kinds ------------------------------------------------------
@@ -162,7 +187,7 @@ ModuleCase(S, U, W) ==
                          \o (IF l \in U THEN <<Asg("install_umask", "h", IF l = 1 THEN RStr("preserve") ELSE Raw("oct", 8 * l + 3, <<>>))>> ELSE <<>>)
                          \o (IF l \in W THEN <<Asg("unity_size", "h", IF l \in {3, 7} THEN RInt(10 + l) ELSE RIntT(10 + l))>> ELSE <<>>)],
          << Q("python.bytecompile", "t", "h"), Q("install_umask", "t", "h"), Q("unity_size", "t", "h"), Q("unity_size", "s", "h") >>)
-ModuleCases == { ModuleCase(S, U, W) : S \in SUBSET {1, 3, 4}, U \in SUBSET {1, 3, 4}, W \in SUBSET {1, 4, 7, 8} }
+ModuleCases(u) == { ModuleCase(S, U, W) : S \in SUBSET {1, 3, 4}, U \in SUBSET {1, 3, 4}, W \in SUBSET {1, 4, 7, 8} }
 
 \* ---- invalid values ---------------------------------------------------------------------------
 \* <<raw, needs a typed source>>
@@ -180,12 +205,15 @@ InvCase(kind, cls, l, j, under) ==
                  !.fam = "invalid",
                  !.lv[l] = <<Asg("x", "h", InvPool(kind)[j][1])>>]
 \* the invalid value sits in the source that decides (alone, or above one valid lower-priority source)
-InvCases ==
+InvCases(u) ==
     UNION { UNION { { InvCase(kind, cls, l, j, {}) : l \in LevelsOf(cls), j \in 1..Len(InvPool(kind)) }
                     : cls \in {"global", "top", "shadow", "subonly"} } : kind \in PrecKinds }
     \cup UNION { { InvCase(kind, "global", l, j, {1}) : l \in 2..8, j \in 1..Len(InvPool(kind)) } : kind \in PrecKinds }
-InvCasesOK == { c \in InvCases : \A l \in 1..8 : \A i \in 1..Len(c.lv[l]) :
+InvCasesOK(u) == { c \in InvCases(0) : \A l \in 1..8 : \A i \in 1..Len(c.lv[l]) :
                   (c.lv[l][i].r.t \in {"int", "bool", "list"} => l \in TypedLevels) }
 
-AllCases == PrecCases \cup BtCases \cup PrefixCases \cup MachineCases \cup ModuleCases \cup InvCasesOK
+FamilySeq(fam, kinds) == CASE fam = "prec" -> PrecSeq(kinds) [] fam = "builtin" -> BuiltinSeq(0) [] fam = "bt" -> SetToSeq(BtCases(0)) [] fam = "prefix" -> SetToSeq(PrefixCases(0))
+                     [] fam = "machine" -> SetToSeq(MachineCases(0)) [] fam = "module" -> SetToSeq(ModuleCases(0))
+                     [] fam = "invalid" -> SetToSeq(InvCasesOK(0))
+AllFamilies == <<"prec", "builtin", "bt", "prefix", "machine", "module", "invalid">>
 =============================================================================
